@@ -282,6 +282,10 @@ func sameL(name string, labels [4]string, c Case, w *vkit.W, outs [4]outcome) (a
 
 func o(v any, err error) outcome { return outcome{v, err} }
 
+// after / after2: the first argument is evaluated (a call made) before the second, whose outcome is the one that counts.
+func after(_ error, x outcome) outcome    { return x }
+func after2(_ outcome, x outcome) outcome { return x }
+
 func judgeStateless(c Case, w *vkit.W) (anyErr bool) {
 	if c.NoLimit {
 		withLimit(c.Type, 0, func() {
@@ -314,8 +318,19 @@ func judgeStateless(c Case, w *vkit.W) (anyErr bool) {
 		e(sameL("DefaultParser", stdLabels, c, w, [4]outcome{o(roman.DefaultParser(a, r)), o(roman.DefaultParser(json.RawMessage(ab), r)), o(roman.DefaultParser(template.HTML(a), r)), o(roman.DefaultParser(xml.CharData(ab), r))}))
 		e(same("Valid", c, w, [4]outcome{o(nil, roman.Valid(a, r)), o(nil, roman.Valid(ab, r)), o(nil, roman.Valid(S(a), r)), o(nil, roman.Valid(B(ab), r))}))
 		e(sameL("Valid", stdLabels, c, w, [4]outcome{o(nil, roman.Valid(a, r)), o(nil, roman.Valid(json.RawMessage(ab), r)), o(nil, roman.Valid(template.HTML(a), r)), o(nil, roman.Valid(xml.CharData(ab), r))}))
+		// the same text through the package's other entry point just before, with the same input type: what one entry point
+		// remembers must not show in the other's answer. The string call comes first and has a []byte call before it.
+		_ = roman.Valid(ab, r)
+		e(same("DefaultParser (each call preceded by Valid on the same argument, the string call by Valid on the bytes)", c, w, [4]outcome{o(roman.DefaultParser(a, r)),
+			after(roman.Valid(ab, r), o(roman.DefaultParser(ab, r))), after(roman.Valid(S(a), r), o(roman.DefaultParser(S(a), r))), after(roman.Valid(B(ab), r), o(roman.DefaultParser(B(ab), r)))}))
+		_, _ = roman.DefaultParser(ab, r)
+		e(same("Valid (each call preceded by DefaultParser on the same argument, the string call by DefaultParser on the bytes)", c, w, [4]outcome{o(nil, roman.Valid(a, r)),
+			after2(o(roman.DefaultParser(ab, r)), o(nil, roman.Valid(ab, r))), after2(o(roman.DefaultParser(S(a), r)), o(nil, roman.Valid(S(a), r))), after2(o(roman.DefaultParser(B(ab), r)), o(nil, roman.Valid(B(ab), r)))}))
 	case "sem":
 		r := sem.Rule(c.Rule)
+		_, _ = sem.Parse(ab)
+		e(same("DefaultParser (each call preceded by Parse on the same argument, the string call by Parse on the bytes)", c, w, [4]outcome{o(sem.DefaultParser(a, r)),
+			after2(o(sem.Parse(ab)), o(sem.DefaultParser(ab, r))), after2(o(sem.Parse(S(a))), o(sem.DefaultParser(S(a), r))), after2(o(sem.Parse(B(ab))), o(sem.DefaultParser(B(ab), r)))}))
 		e(same("DefaultParser", c, w, [4]outcome{o(sem.DefaultParser(a, r)), o(sem.DefaultParser(ab, r)), o(sem.DefaultParser(S(a), r)), o(sem.DefaultParser(B(ab), r))}))
 		e(sameL("DefaultParser", stdLabels, c, w, [4]outcome{o(sem.DefaultParser(a, r)), o(sem.DefaultParser(json.RawMessage(ab), r)), o(sem.DefaultParser(template.HTML(a), r)), o(sem.DefaultParser(xml.CharData(ab), r))}))
 		e(same("Parse", c, w, [4]outcome{o(sem.Parse(a)), o(sem.Parse(ab)), o(sem.Parse(S(a))), o(sem.Parse(B(ab)))}))
